@@ -1027,9 +1027,10 @@ def prop_apply_rule(case, ctx):
 
 @st.composite
 def apply_rule_case(draw):
-    d = draw(st.integers(1, 3))
+    d = draw(st.sampled_from([1, 2, 2, 3, 3]))
     kind = draw(st.sampled_from(["active", "passive"]))
-    k = 1 if kind == "active" else draw(st.integers(1, d))
+    # one-mode passive blocks are 1x1 (blind to transposition slips): prefer >= 2 modes
+    k = 1 if kind == "active" else draw(st.sampled_from([d, d, max(1, d - 1)]))
     return {"d": d, "cutoff": draw(st.integers(2, 5 if d == 3 else 6)), "kind": kind,
             "modes": draw(progs.ordered_modes(d, k)),
             "batch": draw(st.sampled_from([0, 0, 2, 3])),
